@@ -76,6 +76,7 @@ fn oracle(s: &ProgScene<X>, t: &Trace) -> Vec<Violation> {
                 }
                 continue;
             }
+            crate::check::oblige("incarnation-bounds");
             let lower = restarts.iter().filter(|(_, e)| *e < o.begin).count();
             let upper = match o.end {
                 Some(end) => restarts.iter().filter(|(b, _)| *b < end).count(),
@@ -131,6 +132,7 @@ fn oracle(s: &ProgScene<X>, t: &Trace) -> Vec<Violation> {
         let (_, is_enter, inst, inc, cb) = cbs[w];
         if is_enter && cb == Cb::Started {
             if inc > 0 {
+                crate::check::oblige("restart-callbacks");
                 // must directly follow Exit(Stopped) of the previous incarnation
                 let prev = cbs.get(w.wrapping_sub(1));
                 let ok_prev = matches!(prev, Some((_, false, _, pinc, Cb::Stopped)) if *pinc + 1 == inc);
@@ -180,6 +182,7 @@ fn oracle(s: &ProgScene<X>, t: &Trace) -> Vec<Violation> {
     }
     for o in &an.ops {
         if let Some(Res::Reply(r)) = o.res {
+            crate::check::oblige("state-carried-or-reset");
             let want = digest_at.iter().find(|(id, _, _)| *id == r.id);
             match want {
                 Some((_, d, inst)) if *d == r.digest && *inst == r.inst => {}
@@ -206,6 +209,7 @@ fn oracle(s: &ProgScene<X>, t: &Trace) -> Vec<Violation> {
     if let Some(n) = s.roles[0].started.iter().position(|b| *b == StartBeh::Err) {
         let reached = an.enters.iter().filter(|e| e.a == 0 && e.cb == Cb::Started).count() > n;
         if reached {
+            crate::check::oblige("start-failure-on-restart-terminates");
             let later_handled = an.enters.iter().any(|e| e.a == 0 && e.inc as usize > n);
             let later_msg = an.enters.iter().any(|e| e.a == 0 && e.inc as usize == n && matches!(e.cb, Cb::Msg(_)));
             if term.is_none() || later_handled || later_msg {
@@ -227,6 +231,7 @@ fn oracle(s: &ProgScene<X>, t: &Trace) -> Vec<Violation> {
                 _ => continue,
             };
             if let Some(s_next) = start_time(reg_inc + 1) {
+                crate::check::oblige("old-timers-stop-at-restart");
                 if e.time > s_next {
                     out.push(Violation {
                         clause: "old-timers-stop-at-restart",
@@ -372,6 +377,7 @@ pub fn property() -> Property {
     Property {
         id: "C07",
         cases,
+        clauses: &["incarnation-bounds", "restart-callbacks", "start-failure-on-restart-terminates", "state-carried-or-reset"],
         assumptions: &[
             "handlers take no virtual time in the timer scenes, so a tick handled later than the start of the next incarnation must have fired after that start",
             "a restart request counts from the begin to the end of Addr::restart, or the instant Context::restart returned Ok",
